@@ -95,8 +95,10 @@ def write_coqproject():
     return False
 
 
-def ensure_built(timeout=3000):
-    """Full .vo build of the hand-written theory (never -vos). Serialised by a file lock."""
+def ensure_built(timeout=3000, targets=None):
+    """Full .vo build (never -vos) of the hand-written theory, or of the given make targets
+    (e.g. ["Properties/C13.vo", "Model/PipelineRun.vo"]) and everything they depend on.
+    Serialised by a file lock."""
     os.makedirs(WORK, exist_ok=True)
     lockp = os.path.join(ROOT, ".build.lock")
     with open(lockp, "w") as lk:
@@ -110,7 +112,7 @@ def ensure_built(timeout=3000):
             if r.returncode != 0:
                 return False, r.stdout + r.stderr
         r = subprocess.run(
-            ["timeout", str(timeout), "make", "-j16", "-k"],
+            ["timeout", str(timeout), "make", "-j16", "-k"] + list(targets or []),
             cwd=COQ, capture_output=True, text=True)
         return r.returncode == 0, r.stdout[-8000:] + r.stderr[-8000:]
 
